@@ -431,35 +431,6 @@ Pred(name, a) ==
     [] OTHER -> TypeOnly
 
 (***************************************************************************)
-(* The judgement.  Array tags are not part of a documented result: compare  *)
-(* contents.                                                                *)
-(***************************************************************************)
-RECURSIVE Strip(_)
-Strip(v) ==
-  CASE v.k = "array"  -> [k |-> "array", es |-> [i \in 1..Len(v.es) |-> Strip(v.es[i])]]
-    [] v.k = "tuple"  -> [k |-> "tuple", es |-> [i \in 1..Len(v.es) |-> Strip(v.es[i])]]
-    [] v.k = "struct" -> [k |-> "struct", fs |-> [f \in DOMAIN v.fs |-> Strip(v.fs[f])]]
-    [] OTHER -> v
-
-Ok == [ok |-> TRUE]
-Bad(why) == [ok |-> FALSE, why |-> why]
-\* out: [k |-> "value", v |-> V] | [k |-> "panic"|"error"|"rejected", msg |-> ...]
-Judge(name, args, out) ==
-  LET e == Export(name) IN
-  IF out.k # "value" THEN Bad(out.k)
-  ELSE IF ~Member(out.v, e.r) THEN Bad("not a member of the declared result type")
-  ELSE LET p == Pred(name, args) IN
-       CASE p.k = "exact" -> IF Strip(out.v) = Strip(p.v) THEN Ok ELSE Bad("differs from the documented result")
-         [] p.k = "join" ->
-              IF StrJoin([i \in 1..Len(out.v.es) |-> out.v.es[i].cps], <<>>) = args[1].cps
-              THEN Ok ELSE Bad("the pieces do not join to the string")
-         [] OTHER -> Ok
-
-ArgsAdmitted(name, args) ==
-  LET e == Export(name) IN
-  Len(args) = Len(e.ps) /\ \A i \in 1..Len(args) : Member(args[i], e.ps[i])
-
-(***************************************************************************)
 (* Wire <-> Types.tla values (JSON arrays arrive as tuples, struct fields   *)
 (* as <<name, x>> pairs, union members as a tuple).                         *)
 (***************************************************************************)
@@ -509,4 +480,35 @@ WireOfVal(v) ==
                          THEN [k |-> "fnv", sig |-> WireOfType(v.sig), src |-> v.src, of |-> WireOfVal(v.of)]
                          ELSE [k |-> "fnv", sig |-> WireOfType(v.sig), src |-> v.src]
     [] OTHER -> v
+
+(***************************************************************************)
+(* The judgement.  Array tags are not part of a documented result: compare  *)
+(* contents.                                                                *)
+(***************************************************************************)
+RECURSIVE Strip(_)
+Strip(v) ==
+  CASE v.k = "array"  -> [k |-> "array", es |-> [i \in 1..Len(v.es) |-> Strip(v.es[i])]]
+    [] v.k = "tuple"  -> [k |-> "tuple", es |-> [i \in 1..Len(v.es) |-> Strip(v.es[i])]]
+    [] v.k = "struct" -> [k |-> "struct", fs |-> [f \in DOMAIN v.fs |-> Strip(v.fs[f])]]
+    [] OTHER -> v
+
+Ok == [ok |-> TRUE]
+Bad(why) == [ok |-> FALSE, why |-> why]
+\* out: [k |-> "value", v |-> V] | [k |-> "panic"|"error"|"rejected", msg |-> ...]
+Judge(name, args, out) ==
+  LET e == Export(name) IN
+  IF out.k # "value" THEN Bad(out.k)
+  ELSE IF ~Member(out.v, e.r) THEN Bad("not a member of the declared result type")
+  ELSE LET p == Pred(name, args) IN
+       CASE p.k = "exact" -> IF Strip(out.v) = Strip(p.v) THEN Ok
+                             ELSE [ok |-> FALSE, why |-> "differs from the documented result", expected |-> WireOfVal(p.v)]
+         [] p.k = "join" ->
+              IF StrJoin([i \in 1..Len(out.v.es) |-> out.v.es[i].cps], <<>>) = args[1].cps
+              THEN Ok ELSE Bad("the pieces do not join to the string")
+         [] OTHER -> Ok
+
+ArgsAdmitted(name, args) ==
+  LET e == Export(name) IN
+  Len(args) = Len(e.ps) /\ \A i \in 1..Len(args) : Member(args[i], e.ps[i])
+
 =============================================================================
